@@ -1,7 +1,8 @@
 (* C02 driver.  entries = e|e|... or "." ; e = namehex:type:targethex:perms  (type f|d|r, perms decimal)
      dir <entries>      -> ok <manifest hex> <sha1 hex>  |  err ValueError
      git <entries>      -> ok <git_tree_object hex>                 (independent encoder, git's ordering rule)
-     dec <manifest hex> -> ok perms:namehex:targethex|...  | none   (independent decoder) *)
+     dec <manifest hex> -> ok perms:namehex:targethex|...  | none   (independent decoder)
+     cmp <entries> <raw manifest hex | -> -> ok <sha1 hex>        (compute_hash of a Directory with that raw_manifest) *)
 let parse_entry (s : string) : entry =
   match String.split_on_char ':' s with
   | [n; t; tg; p] ->
@@ -21,4 +22,7 @@ let () = serve (function
       (match decode_tree_object (bytes_of_hex m) with
        | Some ts -> "ok " ^ (if ts = [] then "." else String.concat "|" (List.map show_triple ts))
        | None -> "none")
+  | ["cmp"; e; raw] ->
+      let r = if raw = "-" then None else Some (bytes_of_hex raw) in
+      "ok " ^ hex_of_bytes (dir_compute_hash sha1 { d_entries = parse_entries e; d_raw_manifest = r })
   | _ -> "err bad_request")
